@@ -23,7 +23,6 @@ import os
 import pathlib
 import shutil
 import tempfile
-import unicodedata
 import zlib
 import logging
 import warnings
@@ -75,18 +74,34 @@ def is_blank(c):
     return c is None or (isinstance(c, str) and not c.strip())
 
 
+def classify(s):
+    """which block-start marker a text cell is, by the StarTable rule itself (Props/C03.lean Spec.*), written out here
+    independently of the library's regular expression: '**x' table, '***x' directive (exactly two / three leading
+    stars), one to three leading colons and no colon afterwards a template row, 'key:' (non-empty colon-free key, one
+    colon, then only whitespace) a metadata key"""
+    stars = len(s) - len(s.lstrip("*"))
+    if stars == 2:
+        return "tbl"
+    if stars == 3:
+        return "marker"
+    colons = len(s) - len(s.lstrip(":"))
+    if 1 <= colons <= 3 and ":" not in s[colons:]:
+        return "marker"
+    i = s.find(":")
+    if i > 0 and all(ord(ch) in rc.SPACE_CPS for ch in s[i + 1:]):
+        return "marker"
+    return None
+
+
 def row_kind(row):
-    """'blank' | 'plain' | 'tbl' | 'marker' — mirrors Segment.rowKind using the library's marker regex"""
-    from pdtable.io.parsers.blocks import _re_block_marker
+    """'blank' | 'plain' | 'tbl' | 'marker' — mirrors Segment.rowKind; the marker rule is `classify` above, NOT the
+    library's regex (a change to that regex must not move the generator's idea of a well-formed table with it)"""
     if row is None or len(row) == 0 or is_blank(row[0]):
         return "blank"
     c = row[0]
     if not isinstance(c, str):
         return "plain"
-    mm = _re_block_marker.match(c)
-    if mm is None:
-        return "plain"
-    return "tbl" if mm.group(1) == "**" else "marker"
+    return classify(c) or "plain"
 
 
 def block_shaped(grid):
@@ -104,10 +119,7 @@ def gen_tv(rng, native, illformed=None, zero_cols=False):
     names = []
     while len(names) < n_col:
         nm = rc.rand_text(rng, NAME_ALPHA, 1, 4).strip()
-        # distinct also as Python identifiers (NFKC): Table.equals goes through DataFrame.itertuples(), which cannot
-        # build its namedtuple for two names that differ only in composed / decomposed form (a C14 matter, reported)
-        if nm and nm not in names and row_kind([nm]) == "plain" and row_kind([" " + nm + " "]) == "plain" and \
-                unicodedata.normalize("NFKC", nm) not in [unicodedata.normalize("NFKC", x) for x in names]:
+        if nm and nm not in names and row_kind([nm]) == "plain" and row_kind([" " + nm + " "]) == "plain":
             names.append(nm)
     units = [rc.unit_for(rng, k) for k in kinds]
 
